@@ -1421,7 +1421,8 @@ func (args LazyArgumentMap) Path(p string, source, dest syntax.Type,
 		}
 		result := make(MarshalerMap, len(args))
 		var errs syntax.ErrorList
-		for k, v := range args {
+		for _, k := range args.sortedKeys() {
+			v := args[k]
 			elem, err := resolvePath(v, p, t.Elem, dest, lookup)
 			result[k] = elem
 			if err != nil {
@@ -1563,7 +1564,8 @@ func (args LazyArgumentMap) filter(t syntax.Type,
 	case *syntax.TypedMapType:
 		var errs syntax.ErrorList
 		result := make(MarshalerMap, len(args))
-		for k, v := range args {
+		for _, k := range args.sortedKeys() {
+			v := args[k]
 			b, _, err := t.Elem.FilterJson(v, lookup)
 			if err != nil {
 				errs = append(errs, &elementError{
